@@ -91,9 +91,9 @@ def qbfsRec (sqrt : K → K) (x : K) : Rec (Nat × K × K × K × K) K :=
   { init := (0, qbfsPQ sqrt rho 0),
     next := fun _ s =>
       let n := s.1
-      let (p0, p1, q0, q1) := s.2
-      let p2 := (nat 2 - nat 4 * rho) * p1 - p0
-      (n+1, p1, p2, q1, (p2 - qbfsG sqrt (n+1) * q1 - qbfsH n (qbfsF sqrt n) * q0) * (nat 1 / qbfsF sqrt (n+2))),
+      let p2 := (nat 2 - nat 4 * rho) * s.2.2.1 - s.2.1
+      (n+1, s.2.2.1, p2, s.2.2.2.2,
+        (p2 - qbfsG sqrt (n+1) * s.2.2.2.2 - qbfsH n (qbfsF sqrt n) * s.2.2.2.1) * (nat 1 / qbfsF sqrt (n+2))),
     read := fun _ s => s.2.2.2.1 * (rho * (nat 1 - rho)) }
 
 end families
